@@ -53,6 +53,7 @@ def init_ref(cfg):
         "period": cfg.get("period", [10.0, 7.5, 5.0][:d]) if cfg["gen"] == "Fourier" else None,
         "mean_velocity": 1.0,
         "synced": True,
+        "reused": False,
         "ncalls": 0,
     }
     if cfg["gen"] == "IncomprRandMeth":
@@ -76,7 +77,11 @@ def make_srf(cfg, ref, twin):
     m = make_model(ref)
     seed = seed_obj(ref["seed"], twin)
     if cfg["gen"] == "Fourier":
-        return gs.SRF(m, generator="Fourier", period=list(ref["period"]), mode_no=ref["mode_no"], seed=seed)
+        # settings are handed over as float64 arrays owned by the caller (kept, so that the caller can reuse them)
+        pa = np.array(ref["period"], dtype=np.double)
+        srf = gs.SRF(m, generator="Fourier", period=pa, mode_no=ref["mode_no"], seed=seed)
+        srf.__dict__["_caller_arrays"] = [pa]
+        return srf
     if cfg["gen"] == "IncomprRandMeth":
         return gs.SRF(m, generator="IncomprRandMeth", mode_no=ref["mode_no"], seed=seed, mean_velocity=ref["mean_velocity"])
     return gs.SRF(m, generator="RandMeth", mode_no=ref["mode_no"], seed=seed, sampling=cfg.get("sampling", "auto"))
@@ -132,8 +137,16 @@ def apply_op(srf, ref, op, cfg, twin):
         srf.generator.seed = seed_obj(op["v"], twin)
         ref["seed"] = op["v"]
     elif k == "period":
-        srf.generator.period = op["v"]
+        pv = np.array(op["v"], dtype=np.double) if isinstance(op["v"], list) else op["v"]
+        srf.generator.period = pv
+        if isinstance(pv, np.ndarray):
+            srf.__dict__.setdefault("_caller_arrays", []).append(pv)
         ref["period"] = _fill(op["v"], ref["dim"])
+    elif k == "caller_reuse":
+        # the caller overwrites the arrays it passed earlier; the object owns its settings
+        for a in srf.__dict__.get("_caller_arrays", []):
+            a *= 3.0
+        ref["reused"] = True  # part of the explored state: must not matter, but the search may not merge it away
     elif k == "gen_update":
         kw = {}
         if op.get("model") == "current":
@@ -275,6 +288,7 @@ def ops_for(cfg, tier="quick"):
         A({"k": "gen_mode_no", "v": 4})
         A({"k": "period", "v": [7.3, 12.0, 6.0][:d]})
         A({"k": "period", "v": 9.0})
+        A({"k": "caller_reuse"})
         A({"k": "gen_update", "model": "current", "period": [8.0, 6.0, 11.0][:d]})
         A({"k": "gen_update", "model": "equal", "mode_no": [4, 8, 2][:d]})
         A({"k": "gen_update", "model": None, "seed": "S2", "period": 6.5})
